@@ -20,15 +20,18 @@ type Driver struct {
 	N   int
 }
 
-func DriverPath() string {
-	if p := os.Getenv("VERIF_DRIVER"); p != "" {
-		return p
+// DriverPath returns the binary of the named model driver (ocaml/<name>/driver).
+func DriverPath(name string) string {
+	root := os.Getenv("VERIF_OCAML")
+	if root == "" {
+		root = "/verif/ocaml"
 	}
-	return "/verif/ocaml/driver"
+	return root + "/" + name + "/driver"
 }
 
-func Start() (*Driver, error) {
-	c := exec.Command(DriverPath())
+// Start launches the named extracted-model driver.
+func Start(name string) (*Driver, error) {
+	c := exec.Command(DriverPath(name))
 	in, err := c.StdinPipe()
 	if err != nil {
 		return nil, err
